@@ -680,13 +680,20 @@ def simplify_constrained_range(source: str) -> str:
         else:
             continue
 
+        # Negative numbers are parsed as ast.UnaryOp(op=ast.USub(), operand=ast.Constant())
+        negative_int_template = ast.UnaryOp(op=ast.USub, operand=ast.Constant(value=int))
+
         if core.match_template(args[0], ast.Constant(value=int)):
             start = args[0].value
+        elif core.match_template(args[0], negative_int_template):
+            start = -args[0].operand.value
         else:
             start = None
 
         if core.match_template(args[1], ast.Constant(value=int)):
             stop = args[1].value
+        elif core.match_template(args[1], negative_int_template):
+            stop = -args[1].operand.value
         else:
             stop = None
 
@@ -694,6 +701,11 @@ def simplify_constrained_range(source: str) -> str:
             step = args[2].value
         else:
             step = None
+
+        if start is None or stop is None or step != 1:
+            # The bounds can only be moved when start, stop and step are known, and moving the
+            # start is only safe with step 1, since it would otherwise shift every element.
+            continue
 
         target_name = comp.target.id
 
@@ -709,38 +721,38 @@ def simplify_constrained_range(source: str) -> str:
 
         gt_template = (
             ast.Compare(
-                left=ast.Name(id=target_name), ops=[ast.Gt()], comparators=[ast.Constant()]
+                left=ast.Name(id=target_name), ops=[ast.Gt()], comparators=[ast.Constant(value=int)]
             ),
             ast.Compare(
-                left=ast.Constant(), ops=[ast.Lt()], comparators=[ast.Name(id=target_name)]
+                left=ast.Constant(value=int), ops=[ast.Lt()], comparators=[ast.Name(id=target_name)]
         ),)
         lt_template = (
             ast.Compare(
-                left=ast.Name(id=target_name), ops=[ast.Lt()], comparators=[ast.Constant()]
+                left=ast.Name(id=target_name), ops=[ast.Lt()], comparators=[ast.Constant(value=int)]
             ),
             ast.Compare(
-                left=ast.Constant(), ops=[ast.Gt()], comparators=[ast.Name(id=target_name)]
+                left=ast.Constant(value=int), ops=[ast.Gt()], comparators=[ast.Name(id=target_name)]
         ),)
         gte_template = (
             ast.Compare(
-                left=ast.Name(id=target_name), ops=[ast.GtE()], comparators=[ast.Constant()]
+                left=ast.Name(id=target_name), ops=[ast.GtE()], comparators=[ast.Constant(value=int)]
             ),
             ast.Compare(
-                left=ast.Constant(), ops=[ast.LtE()], comparators=[ast.Name(id=target_name)]
+                left=ast.Constant(value=int), ops=[ast.LtE()], comparators=[ast.Name(id=target_name)]
         ),)
         lte_template = (
             ast.Compare(
-                left=ast.Name(id=target_name), ops=[ast.LtE()], comparators=[ast.Constant()]
+                left=ast.Name(id=target_name), ops=[ast.LtE()], comparators=[ast.Constant(value=int)]
             ),
             ast.Compare(
-                left=ast.Constant(), ops=[ast.GtE()], comparators=[ast.Name(id=target_name)]
+                left=ast.Constant(value=int), ops=[ast.GtE()], comparators=[ast.Name(id=target_name)]
         ),)
         eq_template = (
             ast.Compare(
-                left=ast.Name(id=target_name), ops=[ast.Eq()], comparators=[ast.Constant()]
+                left=ast.Name(id=target_name), ops=[ast.Eq()], comparators=[ast.Constant(value=int)]
             ),
             ast.Compare(
-                left=ast.Constant(), ops=[ast.Eq()], comparators=[ast.Name(id=target_name)]
+                left=ast.Constant(value=int), ops=[ast.Eq()], comparators=[ast.Name(id=target_name)]
         ),)
         templates = (gt_template, lt_template, gte_template, lte_template, eq_template)
 
@@ -770,7 +782,7 @@ def simplify_constrained_range(source: str) -> str:
                     redundant_conditions.add(condition)
 
             elif core.match_template(condition, lte_template):
-                if stop is None or comparator.value <= stop:
+                if stop is None or comparator.value + 1 <= stop:
                     stop = comparator.value + 1
                     redundant_conditions.add(condition)
 
